@@ -39,6 +39,45 @@ func (x *Exec) isSpecFunc(fn *types.Func) bool {
 }
 
 func (x *Exec) call(st *State, e *ast.CallExpr) []Val {
+	res := x.call0(st, e)
+	if x.con != nil && len(x.con.Ghosts) > 0 && !x.specMode && x.noOblig == 0 && x.inlineDepth == 0 && x.curClause == nil {
+		name := calleeName(e)
+		x.callSeen[name]++
+		for _, g := range x.con.Ghosts {
+			if g.Anchor == "after" && g.Callee == name && g.Ord == x.callSeen[name] && !st.reach.IsFalse() {
+				x.runGhost(st, g)
+			}
+		}
+	}
+	return res
+}
+
+// runGhost executes a ghost call: its preconditions become obligations, its postconditions facts.
+func (x *Exec) runGhost(st *State, g *GhostStmt) {
+	savedInfo, savedClause := x.info, x.curClause
+	x.info, x.curClause = g.Clause.Info, g.Clause
+	x.inGhost++
+	defer func() { x.inGhost--; x.info, x.curClause = savedInfo, savedClause }()
+	e := g.Clause.Expr
+	// optional guard: cond ==> call   (desugared to !(cond) || (call))
+	if b, ok := ast.Unparen(e).(*ast.BinaryExpr); ok && b.Op == token.LOR {
+		if u, ok := ast.Unparen(b.X).(*ast.UnaryExpr); ok && u.Op == token.NOT {
+			x.noOblig++
+			cond := x.expr(st, u.X).T
+			x.noOblig--
+			saved := st.reach
+			st.reach = x.c.And(st.reach, cond)
+			if !st.reach.IsFalse() {
+				x.expr(st, b.Y)
+			}
+			st.reach = saved
+			return
+		}
+	}
+	x.expr(st, e)
+}
+
+func (x *Exec) call0(st *State, e *ast.CallExpr) []Val {
 	x.curPos = e.Pos()
 	// conversion
 	if tv, ok := x.info.Types[e.Fun]; ok && tv.IsType() {
@@ -599,6 +638,16 @@ func (x *Exec) callContract(st *State, con *Contract, recv *Val, args []Val, e *
 		}
 	}
 	x.bindParams(st, sig, recv, args)
+	if x.con == con && x.noOblig == 0 {
+		// recursive call: the measure must decrease and stay non-negative
+		if con.Decreases == nil {
+			x.fail("recursive call of %s: the contract needs a `decreases` clause", con.Key)
+		}
+		nv := x.evalClauseVal(st, con.Decreases)
+		ov := x.evalClauseVal(x.entry.clone(), con.Decreases)
+		x.oblige(st, fmt.Sprintf("%s/call.%s#%d.decreases", x.key, shortKey(con.Key), ord), "call-requires", "decreases "+con.Decreases.Text,
+			x.c.And(x.idxLe(x.idxLit(0), nv), x.idxLt(nv, ov)))
+	}
 	// preconditions
 	for _, rq := range con.Requires {
 		for k, conj := range x.clauseConjuncts(st, rq, nil) {
@@ -1301,4 +1350,14 @@ func (con *Contract) freshResult(i int, r *types.Var) bool {
 		}
 	}
 	return false
+}
+
+func (x *Exec) evalClauseVal(st *State, cl *Clause) *Term {
+	savedInfo, savedClause := x.info, x.curClause
+	x.info, x.curClause = cl.Info, cl
+	x.noOblig++
+	v := x.expr(st, cl.Expr)
+	x.noOblig--
+	x.info, x.curClause = savedInfo, savedClause
+	return x.toIdx(st, v)
 }
